@@ -223,6 +223,8 @@ type Runtime struct {
 	serve2Err  error
 	userParams wire.Parameters
 	paramsCopy map[string]string
+	userParams2 wire.Parameters
+	paramsCopy2 map[string]string
 	closerEv   [][]Event
 	closerMu   []*sync.Mutex // one per Close caller: orders its event log before the reader, and nothing else
 	closerTask []int
@@ -380,6 +382,17 @@ func (rt *Runtime) buildServer() (*wire.Server, error) {
 			rt.paramsCopy[k] = v
 		}
 		opts = append(opts, wire.GlobalParameters(rt.userParams))
+		if cfg.Params2 != nil {
+			// the option given a second time (an embedding package's defaults
+			// followed by the application's own map): both maps stay the user's
+			rt.userParams2 = wire.Parameters{}
+			rt.paramsCopy2 = map[string]string{}
+			for k, v := range cfg.Params2 {
+				rt.userParams2[wire.ParameterStatus(k)] = v
+				rt.paramsCopy2[k] = v
+			}
+			opts = append(opts, wire.GlobalParameters(rt.userParams2))
+		}
 	}
 	if cfg.Version != "" {
 		opts = append(opts, wire.Version(cfg.Version))
@@ -400,7 +413,7 @@ func (rt *Runtime) buildServer() (*wire.Server, error) {
 	}
 	var lateTLS func(*wire.Server)
 	if cfg.TLS != "" {
-		tc, err := serverTLSConfig(cfg.TLS)
+		tc, err := serverTLSConfig(cfg.TLS, cfg.TLSCertValidity)
 		if err != nil {
 			return nil, err
 		}
@@ -549,17 +562,32 @@ func (rt *Runtime) finish(res *Result) {
 	}
 	res.Accepts = rt.L.Accepts
 	res.Panics = rt.Panics
-	if rt.paramsCopy != nil {
-		if len(rt.userParams) != len(rt.paramsCopy) {
-			res.ParamsMutated = fmt.Sprintf("size %d -> %d: %s", len(rt.paramsCopy), len(rt.userParams), sortedParams(rt.userParams))
-		} else {
-			for k, v := range rt.paramsCopy {
-				if got, ok := rt.userParams[wire.ParameterStatus(k)]; !ok || got != v {
-					res.ParamsMutated = fmt.Sprintf("key %q: %q -> %q (present=%v)", k, v, got, ok)
-				}
-			}
+	res.ParamsMutated = paramsMutated(rt.userParams, rt.paramsCopy)
+	if m := paramsMutated(rt.userParams2, rt.paramsCopy2); m != "" && res.ParamsMutated == "" {
+		res.ParamsMutated = "second map: " + m
+	}
+}
+
+// paramsMutated compares a user-supplied parameter map with the copy taken
+// before the server saw it.
+func paramsMutated(user wire.Parameters, copy map[string]string) string {
+	if copy == nil {
+		return ""
+	}
+	if len(user) != len(copy) {
+		return fmt.Sprintf("size %d -> %d: %s", len(copy), len(user), sortedParams(user))
+	}
+	keys := make([]string, 0, len(copy))
+	for k := range copy {
+		keys = append(keys, k)
+	}
+	sort.Strings(keys)
+	for _, k := range keys {
+		if got, ok := user[wire.ParameterStatus(k)]; !ok || got != copy[k] {
+			return fmt.Sprintf("key %q: %q -> %q (present=%v)", k, copy[k], got, ok)
 		}
 	}
+	return ""
 }
 
 // teardown stops the server after the decided part of the run: it freezes the
